@@ -2,7 +2,7 @@
    The scad_file! arms are regenerated from the source (Gen/ScadFile.v); these theorems are
    re-checked against them on every run. Axiom-free. *)
 From Coq Require Import NArith List String Bool.
-From SCAD Require Import Text.Chars Gen.ScadFile Text.FileModel Text.File_proofs.
+From SCAD Require Import Text.Chars Text.Tree Text.Lex Text.Parse Text.Emit Text.Lex_proofs Text.Emit_proofs Text.Parse_proofs Text.FileParse_proofs Gen.ScadFile Text.FileModel Text.File_proofs.
 Import ListNotations.
 Local Open Scope string_scope. Local Open Scope list_scope.
 
@@ -21,3 +21,24 @@ Theorem C13_content :
   (forall a s body, file_content [("fa", a); ("fs", s)] body =
      Some (s2t "$fa=" ++ a ++ s2t ";" ++ [10%N] ++ s2t "$fs=" ++ s ++ s2t ";" ++ [10%N] ++ body)).
 Proof. exact (conj content_none (conj content_fa (conj content_fs (conj content_fn content_fa_fs)))). Qed.
+
+(* the file therefore parses as an OpenSCAD program: one assignment per setting line, then the children as top-level
+   statements (same hypothesis on the number printer as C01) *)
+Section C13parse.
+  Variables num str : Type.
+  Variable fmt : num -> text.
+  Variable chars : str -> text.
+  Hypothesis fmt_plain_decimal : forall x, wf_num (fmt x).
+  Theorem C13_file_parses : forall (sl : list (text * text)) ts, Forall wf_setting sl -> forallb (@wf num str) ts = true ->
+    parse_text (flat_map setting_line sl ++ emit_seq num str fmt chars ts) =
+    Some (map (fun kv => TAssign (fst kv) (ENum (snd kv))) sl ++ map (fun t => TInst (stmt_of num str fmt chars t)) ts).
+  Proof. exact (file_parses num str fmt chars fmt_plain_decimal). Qed.
+End C13parse.
+(* the setting lines of the model are of that form: label '=' literal ';' newline with the labels $fa, $fs, $fn *)
+Theorem C13_content_is_setting_lines : forall a s body,
+  file_content [("fa", a); ("fs", s)] body = Some (flat_map setting_line [(s2t "$fa", a); (s2t "$fs", s)] ++ body) /\
+  file_content [("fn", a)] body = Some (flat_map setting_line [(s2t "$fn", a)] ++ body) /\
+  wf_id (s2t "$fa") /\ wf_id (s2t "$fs") /\ wf_id (s2t "$fn").
+Proof.
+  intros. split; [|split; [|repeat split; reflexivity]]; unfold setting_line; cbn; rewrite ?app_nil_r, <- ?app_assoc; cbn; rewrite <- ?app_assoc; reflexivity.
+Qed.
